@@ -36,7 +36,7 @@ type checker struct {
 	st     *Stats
 	routes []Route
 	splits []Split
-	item   int // running index of work items (state x sender x route), the sharding unit
+	item   int             // running index of work items (state x sender x route), the sharding unit
 	done   map[string]bool // signatures already confirmed and reported
 	raw    map[string][]string
 }
